@@ -81,11 +81,11 @@ def reached(args):
     return uniq
 
 
-def round_trip(cfg, root, files, args, pre, rng, label):
+def round_trip(cfg, root, files, args, pre, rng, label, tree_prefix=b'tree'):
     """files: {path relative to tree: bytes}; args: list of paths (str/bytes) relative to root/src; pre: {rel: state}
     -> record for RoundTripTrace.tla"""
     src = os.path.join(str(root), 'src')
-    tree = os.path.join(src, 'tree')
+    tree = os.path.join(src, os.fsdecode(tree_prefix)) if tree_prefix else src
     mt = {}
     for rel, data in files.items():
         p = os.path.join(os.fsencode(tree), os.fsencode(rel)) if isinstance(rel, bytes) else os.path.join(tree, rel)
@@ -242,26 +242,28 @@ def main(run):
     for k, (sizes, args, pre) in enumerate(inst):
         cfg = GRID[k % len(GRID)]
         classes = size_classes(cfg)
-        names = sorted(rng.sample(NAMES, 3))
+        # file 1 lives in the sibling directory "tree-2" (its path extends the path of "tree" as a string), files 2 and 3 in "tree"
+        inner = sorted(rng.sample(NAMES, 2))
         if rng.random() < 0.3:
-            names[rng.randrange(3)] = RAW[0]
-        # ids follow str() order of the full paths: sort the names the way the paths will sort
+            inner[rng.randrange(2)] = RAW[0]
+        first = rng.choice(NAMES)
         with harness.scratch() as d:
-            key = lambda n: os.fsdecode(os.path.join(os.fsencode(str(d)), b'src', b'tree', os.fsencode(n)))  # noqa: E731
-            names = sorted(names, key=key)
+            key = lambda n: os.fsdecode(os.path.join(os.fsencode(str(d)), b'src', os.fsencode(n)))  # noqa: E731
+            inner = sorted(inner, key=lambda n: key(os.path.join(b'tree', os.fsencode(n))))
+            rels = [os.path.join(b'tree-2', os.fsencode(first))] + [os.path.join(b'tree', os.fsencode(n)) for n in inner]
+            assert sorted(rels, key=key) == rels
             files = {}
             kinds = ['rand', 'zero', 'rep', 'same']
             shared = content(rng, 4096, 'rand')
-            for i, n in enumerate(names):
+            for i, rel in enumerate(rels):
                 sz = classes[sizes[i]]
                 kd = rng.choice(kinds)
-                files[n] = shared[:sz] if kd == 'same' else content(rng, sz, kd)
-            a = [('tree' if x == 0 else os.path.join(b'tree', os.fsencode(names[x - 1]))) for x in args]
-            # pre is indexed by file id (rank among all three files)
-            pmap = {key(names[i]): pre[i] for i in range(3)}
-            rec = round_trip(cfg, d, files, a, pmap, rng, 'tlc-instance')
-            rec['dup_args'] = len(reached([os.fsdecode(os.path.join(os.fsencode(str(d)), b'src', os.fsencode(x))) for x in a])) < \
-                sum(3 if x == 0 else 1 for x in args)
+                files[rel] = shared[:sz] if kd == 'same' else content(rng, sz, kd)
+            a = [(b'tree' if x == 0 else b'tree-2' if x == 100 else rels[x - 1]) for x in args]
+            pmap = {key(rels[i]): pre[i] for i in range(3)}
+            rec = round_trip(cfg, d, files, a, pmap, rng, 'tlc-instance', tree_prefix=b'')
+            nreach = sum(2 if x == 0 else 1 for x in args)
+            rec['dup_args'] = len(reached([key(x) for x in a])) < nreach
             rec['instance'] = [list(sizes), list(args), list(pre)]
             recs.append(rec)
             run.case(('inst', tuple(sizes), tuple(args), tuple(pre), k % len(GRID)), nontrivial=any(classes[s] > 0 for s in sizes))
@@ -279,6 +281,10 @@ def main(run):
             args = ['tree']
             if rng.random() < 0.5:
                 args = [os.path.join('tree', nm) for nm in rng.sample(names, rng.randrange(1, len(names) + 1))]
+            if rng.random() < 0.5:
+                # more than one directory: nested ones, and siblings whose names extend each other
+                args = rng.sample(['tree', 'tree/sub', 'tree/g01', 'tree/g0', 'tree/sub/deep'], rng.randrange(1, 4)) + args[:2]
+                files.update({'g0/x.bin': content(rng, 50, 'rand'), 'g01/y.bin': content(rng, 70, 'rand'), 'sub/deep/er.x': content(rng, 9, 'rand'), 'sub/top': b'top'})
             rec = round_trip(cfg, d, files, args, {}, rng, 'random-tree') if rng.random() < 0.7 else None
             if rec is None:
                 # symlinks: a link to a file given as argument, and a link inside the walked directory
